@@ -676,7 +676,9 @@ func (ev *SpecEnv) callExpr(x *ast.CallExpr) (Val, types.Type) {
 			return Scalar{sum}, nil
 		}
 		ev.ex.Funs["0uf_beval"] = fmt.Sprintf("(declare-fun beval (%s Int Int) Int)", mem.S)
-		return Scalar{App("beval", IntSort, mem, sv.Off, sv.Len)}, nil
+		bt := App("beval", IntSort, mem, sv.Off, sv.Len)
+		ev.ex.unfoldBeval(bt, mem, sv.Off, sv.Len)
+		return Scalar{bt}, nil
 	case "mhas", "mget":
 		// mhas(m, k): key k is present in map m; mget(m, k): the value stored under k (the zero value if absent)
 		need(2)
@@ -728,7 +730,9 @@ func (ev *SpecEnv) callExpr(x *ast.CallExpr) (Val, types.Type) {
 				return Scalar{sum}, nil
 			}
 			ev.ex.Funs["0uf_beval"] = fmt.Sprintf("(declare-fun beval (%s Int Int) Int)", mem.S)
-			return Scalar{App("beval", IntSort, mem, sv.Off, sv.Len)}, nil
+			bt := App("beval", IntSort, mem, sv.Off, sv.Len)
+			ev.ex.unfoldBeval(bt, mem, sv.Off, sv.Len)
+			return Scalar{bt}, nil
 		}
 		if !ok || ev.ex.Mode != ModeBV {
 			ev.fail("betail64 needs a byte slice in bv mode")
@@ -1059,6 +1063,14 @@ func (ev *SpecEnv) num(v Val, t types.Type, e ast.Expr) *Term {
 		ev.fail("num() of symbolic interface value; project it first: %s", exprString(e))
 	case StructV:
 		ts := ev.ex.P.CS.Types[typeKey(x.Typ)]
+		if (ts == nil || ts.Num == nil) && t != nil {
+			// a value converted between named struct types of the same shape (Fix128(raw)): the static type decides
+			if st := ev.ex.P.CS.Types[typeKey(t)]; st != nil && st.Num != nil {
+				x.Typ = t
+				v = x
+				ts = st
+			}
+		}
 		if ts != nil && ts.Num != nil {
 			sub := *ev
 			sub.vars = map[string]Val{"self": v}
@@ -1300,4 +1312,44 @@ type BigWrite struct {
 	PC   []*Term
 	Ref  *Term
 	Site string
+}
+
+// unfoldBeval: with `option bevalbound=N` every occurrence of the uninterpreted big-endian value beval(mem, off, len)
+// of a slice of symbolic length comes with its definition for lengths up to N, written out:
+//
+//	0 <= len <= N  ==>  beval(mem, off, len) == sum over k < N of (k < len ? mem[off+len-1-k] * 256^k : 0)
+//
+// This is what beval means (the same sum is used directly for slices of constant length); it is an instance of
+// the definition, not a fact about the code.
+func (ex *Exec) unfoldBeval(bt, mem, off, ln *Term) {
+	if ex.C == nil || ex.Mode != ModeInt {
+		return
+	}
+	opt := ex.C.Options["bevalbound"]
+	if opt == "" {
+		return
+	}
+	n, err := strconv.Atoi(opt)
+	if err != nil || n <= 0 || n > 64 {
+		ex.reject("option bevalbound=%s: need 1..64", opt)
+	}
+	key := "bevalunfold:" + bt.String()
+	if ex.constSeen == nil {
+		ex.constSeen = map[string]bool{}
+	}
+	if ex.constSeen[key] {
+		return
+	}
+	ex.constSeen[key] = true
+	sum := IntC(0)
+	var ranges []*Term
+	for k := 0; k < n; k++ {
+		pos := ISub(IAdd(off, ln), IntC(int64(k+1)))
+		sel := Select(mem, pos)
+		term := IMul(sel, IntBig(new(big.Int).Lsh(big.NewInt(1), uint(8*k))))
+		sum = IAdd(sum, Ite(ILt(IntC(int64(k)), ln), term, IntC(0)))
+		// the elements are bytes (memory only ever holds values of the element type)
+		ranges = append(ranges, Implies(ILt(IntC(int64(k)), ln), And(IGe(sel, IntC(0)), ILe(sel, IntC(255)))))
+	}
+	ex.Assumes = append(ex.Assumes, Implies(And(IGe(ln, IntC(0)), ILe(ln, IntC(int64(n)))), And(append(ranges, Eq(bt, sum))...)))
 }
